@@ -143,6 +143,24 @@ def shard(acc, tier, idx, n):
                     ordered, _, _ = ins.fields('big', ((G.lit(v), (v, w), None),), 0x200)
                     exp = refenc.encode(ordered)
                 one(acc, isa, 'tst ' + G.lit(v), exp, 'minmax', why=f'{v} outside {lo}..{hi} or {w} bits')
+    # ---- (ii-b) a numeric_bytecode index inside an indexed register: the index has its own field inside the composite code ---------
+    for w, indirect in itertools.product((3, 4), (False, True)):
+        half, top = 1 << (w - 1), (1 << w) - 1
+        for lo, hi in ((-(1 << w), 1 << w), (-half, top), (-half - 1, top + 1), (0, top)):
+            ctr += 1
+            if ctr % n != idx:
+                continue
+            typ = 'indirect_indexed_register' if indirect else 'indexed_register'
+            isa = {'general': {'address_size': 16, 'endian': 'big', 'registers': ['a', 'x'], 'min_version': '0.3.0'},
+                   'operand_sets': {'ix': {'operand_values': {'xi': {
+                       'type': typ, 'register': 'x', 'bytecode': {'value': 2, 'size': 2},
+                       'index_operands': {'nb': {'type': 'numeric_bytecode', 'bytecode': {'size': w, 'min': lo, 'max': hi}}}}}}},
+                   'instructions': {'tst': {'bytecode': {'value': 0xA, 'size': 4}, 'operands': {'count': 1, 'operand_sets': {'list': ['ix']}}}}}
+            for v in range(lo - 1, hi + 2):
+                ok = lo <= v <= hi and refenc.fits(v, w)
+                exp = refenc.encode([(0xA, 4, False, 'big'), ((2 << w) | (v % (1 << w)), 2 + w, False, 'big')]) if ok else None
+                text = ('tst [x + KV]' if indirect else 'tst x + KV')
+                one(acc, isa, text, exp, 'minmax', consts=(('KV', v),), why=f'index {v} outside {lo}..{hi} or {w} bits')
     # ---- (iii) numeric enumerations ---------------------------------------------------------------------------
     for r in range(1, 4):
         for keys in itertools.combinations(range(5), r):
